@@ -145,3 +145,17 @@ _m("C11",
    "zero-propensity model.",
    _COMMON + ["statistical power as C05", "bioscrape's own ln 2 constant (0.69314718056) is used for the reference growth law"],
    budget={"quick": 240, "thorough": 2400})
+
+_m("C10",
+   "(paths) Hypothesis builds networks of 1..3 mass-action reactions whose products and/or reactants are delayed "
+   "(fixed / Gaussian / Gamma(k>=1) delays from 0.05 dt to 3x the horizon, numeric or named parameters), instrumented "
+   "with a firing counter N_r and a delivery counter D_r, on exactly representable grids of 5..60 points, run through "
+   "DelaySSASimulator and py_simulate_model(delay=True); exact checks on every row: state = x0 + N x immediate + D x "
+   "delayed stoichiometry, D <= N and monotone, at the end D + queued (drained from the returned queue) = N; for "
+   "fixed delays N(t - tau - 1.5dt) <= D(t) <= N(t - tau + 1.5dt), nothing delivered when tau exceeds the horizon; "
+   "an always-negative Gaussian delay delivers with the firing.  (draws) 20k / 80k py_get_delay draws per parameter "
+   "set against scipy.stats norm / gamma (KS, two-stage).  (distribution) all delays zero on the delay simulator, and "
+   "SSASimulator / VolumeSSASimulator on delay models, against the master equation of the net network.  Non-trivial: "
+   ">= 3 firings of a delayed reaction with a delivery strictly later than the firing; every draw / distribution case.",
+   _COMMON + ["statistical power as C05", "slot rounding (nearest vs truncation) is only visible to the sandwich when tau/dt is near .5; it is decided by C20"],
+   budget={"quick": 240, "thorough": 2400})
